@@ -288,5 +288,14 @@ Definition check_description (private : bool) (ref : arg) (i : info) : option st
       end
   end.
 
+(* reference kind 4: a stream that RFC 4880 does not allow as it stands (partial lengths on key
+   packets, octets behind the fields of a packet, message packets in a key block): a reader may
+   reject it; if it describes it, then as the key that the packet framing of RFC 4880 4.2 yields *)
+Definition check_ref (private : bool) (ref : arg) (i : info) : option string :=
+  match i with
+  | Info [] [] [] => if Z.eqb (arg_Z (arg_nth 0 ref)) 4 then None else check_description private ref i
+  | _ => check_description private ref i
+  end.
+
 Definition verdict (o : option string) : arg :=
   match o with None => AL [] | Some s => AB (bytes_of_string s) end.
